@@ -72,6 +72,11 @@ SameSchemaDoc(ja, jb) ==
   IF ja.k = "np" \/ jb.k = "np" THEN ja.k = jb.k
   ELSE JEq(Inline(ja, ja, 6), Inline(jb, jb, 6))
 
+C06_Clause(j0, j1) ==
+  IF JSame(j0, j1) THEN "ok"
+  ELSE IF SameSchemaDoc(j0, j1) THEN "definition-names-differ-only"
+  ELSE "document-differs"
+
 C17_Clause(e) ==
   IF e.eqab # e.eqba THEN "not-symmetric"
   ELSE IF e.eqab /\ e.ka # e.kb THEN "equal-but-different-verdicts"
